@@ -32,7 +32,7 @@ func NewCluster(prop int, knobs map[string]string) *Cluster {
 	}
 	c := &Cluster{Prop: prop, procs: map[string]*exec.Cmd{}, done: map[string]chan struct{}{}, Knobs: knobs}
 	for i := 0; i < 3; i++ {
-		c.IPs[i] = fmt.Sprintf("127.%d.%d.%d", 20+prop, inst%250+1, i+1)
+		c.IPs[i] = fmt.Sprintf("127.%d.%d.%d", 20+prop+25*((inst/250)%9), inst%250+1, i+1)
 	}
 	c.Dir = filepath.Join(runBase(), fmt.Sprintf("cluster%d", inst))
 	_ = os.RemoveAll(c.Dir)
